@@ -100,7 +100,7 @@ def fs_open(ex, args, kwargs):
     mode = a[1] if len(a) > 1 else kwargs.get("mode", "r")
     enc = kwargs.get("encoding")
     if enc is None:
-        raise Unsupported("open() without an explicit encoding")
+        enc = "<locale default encoding>"      # open() without encoding=: whatever the platform prefers
     nt, et = term(name, STR), term(enc, STR)
     fs = fs_of(ex)
     ex.assumptions_used.add("T-FS: ghost file system contract for open/read/write/close (NativeOSFS and PyFilesystem both assumed to satisfy it)")
@@ -136,7 +136,7 @@ def _write_hook(ex, f, s):
     et, nt = f.fields["et"], f.fields["nt"]
     if not ex.branch(encodable(et, st), "encodable"):
         ex.raise_(UnicodeEncodeError, "codec can't encode character", tag="unencodable")
-    if faults(ex).write:
+    if faults(ex).write and not f.fields.get("__suppress_faults__"):
         if ex.branch(fresh_term(z3.BoolSort(), "fault_write"), "fault:write"):
             ex.raise_(OSError, "write failed", tag="fault:write")
     out = z3.Concat(f.fields["out"].t, *MSD.frags_of(ex, s)) if MSD.frags_of(ex, s) else f.fields["out"].t
@@ -157,6 +157,7 @@ def _with_enter(ex, cm):
 def _with_exit(ex, cm, exc):
     if isinstance(cm, HObj) and cm.cls in (io.TextIOWrapper, io.StringIO, MSD._Writer):
         cm.fields["closed"] = True
+        ex.ghost.setdefault("closed_files", []).append((cm, exc is None))
         return None
     return NotImplemented
 
